@@ -396,6 +396,7 @@ def main(argv=None):
         return 0
 
     ctx = Ctx(args.id, mod.LEVEL, args.tier, seed)
+    shutil.rmtree(os.path.join(VERIF, "replays", args.id), ignore_errors=True)
     try:
         mod.run(ctx)
         rc = finish(ctx, mod)
